@@ -68,8 +68,13 @@ def tasks(tier, seed):
                     ts.append(dict(kind='file', ta=ta, inter=inter, big=big, struct=struct_, S=S, tier=tier))
     ts.append(dict(kind='leadin', big=False))
     ts.append(dict(kind='leadin', big=True))
-    for big in (False, True):
-        ts.append(dict(kind='kc', S=2, big=big, lazy=big))
+    # index-stream kernel: the first segment's encoding and channel 0's type are fixed per task, the rest is explored
+    for k0 in range(2):
+        for k1 in range(3):
+            for t0 in range(len(KC_TYPES)):
+                big = (k0 + k1 + t0) % 2 == 1
+                ts.append(dict(kind='kc', S=2 if tier == 'quick' else 3, big=big, lazy=(t0 % 2 == 0),
+                               fixed={'kind0_0': k0, 'kind0_1': k1, 'type0': t0}))
     for inter in (False, True):
         for incomplete in (False, True):
             for k in ((1, 2) if tier == 'quick' else (1, 2, 3)):
@@ -304,7 +309,14 @@ def _run_kc(task):
     S, big = task['S'], task['big']
     paths = ["/'g'/'c0'", "/'g'/'c1'"]
 
+    fixed = task.get('fixed', {})
+
     def fn(ctx):
+        def choice(name, n):
+            if name in fixed:
+                ctx.int(name, fixed[name], fixed[name])
+                return fixed[name]
+            return ctx.choice(name, n)
         b = Builder()
         E = '>' if big else '<'
         last = {}                   # path -> (tcode, size, nv term)   last full index (file-wide)
@@ -314,8 +326,8 @@ def _run_kc(task):
         prop_last = None
         segs = []
         for s in range(S):
-            meta = True if s == 0 else bool(ctx.choice('meta%d' % s, 2))
-            newobj = True if s == 0 else bool(ctx.choice('newobj%d' % s, 2))
+            meta = True if s == 0 else bool(choice('meta%d' % s, 2))
+            newobj = True if s == 0 else bool(choice('newobj%d' % s, 2))
             toc = (2 if meta else 0) | (4 if (newobj and meta) else 0) | 8 | (64 if big else 0)
             b.raw(b'TDSh')
             b.field(toc, 4, '<')
@@ -333,7 +345,7 @@ def _run_kc(task):
                 listed = []
                 for k, p in enumerate(paths):
                     kinds = ['full'] + (['same'] if p in last else []) + ['nodata'] + (['unlisted'] if s > 0 or k > 0 else [])
-                    kind = kinds[ctx.choice('kind%d_%d' % (s, k), len(kinds))]
+                    kind = kinds[choice('kind%d_%d' % (s, k), len(kinds))]
                     if kind != 'unlisted':
                         listed.append((p, kind, k))
                 b.field(len(listed), 4, E)
@@ -345,7 +357,7 @@ def _run_kc(task):
                         if p in last:
                             tcode, size = last[p][0], last[p][1]
                         else:
-                            tcode, size = KC_TYPES[ctx.choice('type%d' % k, len(KC_TYPES))]
+                            tcode, size = KC_TYPES[choice('type%d' % k, len(KC_TYPES))] if k == 0 else KC_TYPES[1]
                         nv = ctx.int('nv%d_%d' % (s, k), 0, 2 ** 40)
                         b.field(20, 4, E)
                         b.field(tcode, 4, E)
@@ -363,7 +375,7 @@ def _run_kc(task):
                         active.append(p)
                     if k == 0 and kind != 'unlisted':
                         # one integer property with a symbolic value, its width a choice
-                        w = [(3, 4, True), (4, 8, True), (8, 8, False), (2, 2, True)][ctx.choice('pw%d' % s, 4)]
+                        w = [(3, 4, True), (4, 8, True), (8, 8, False), (2, 2, True)][(s + fixed.get('type0', 0)) % 4]
                         lo, hi = (-(2 ** (8 * w[1] - 1)), 2 ** (8 * w[1] - 1) - 1) if w[2] else (0, 2 ** (8 * w[1]) - 1)
                         pv = ctx.int('prop%d' % s, lo, hi)
                         b.field(1, 4, E)
@@ -379,7 +391,7 @@ def _run_kc(task):
             if any(hd.get(p) and p not in last for p in active):
                 raise PathAbort()             # forbidden encoding (no index defined): covered by C02
             chunk = sum((ex(nv) * size for (_, (t, size, nv)) in dobjs), z3.IntVal(0))
-            nc = ctx.choice('nc%d' % s, 4)
+            nc = choice('nc%d' % s, 3)
             ctx.add(ex(rdo) == meta_len)
             ctx.add(ex(nso) == meta_len + chunk * nc)
             if nc > 0:
